@@ -228,11 +228,28 @@ func (r *hoverRun) line(req int, qs []any, gt any) map[string]any {
 	doc, _ := r.srv.GetDocument(uri)
 	docj, _ := parser.Parse(doc)
 	var wsres, res any
+	wsroot := ""
 	if w := r.srv.Workspace(); w != nil {
 		wsres = r.resolvedJ(w.GetResolved())
+		wsroot = r.normPath(w.RootJournalPath())
 	}
-	if wsres == nil {
-		res = r.resolvedJ(r.srv.GetResolved(uri))
+	dpath := r.normPath(strings.TrimPrefix(string(uri), "file://"))
+	// the per-URI tree is what Hover uses without a workspace and, with one, from a journal
+	// outside the root's include tree
+	perURI := r.srv.GetResolved(uri)
+	res = r.resolvedJ(perURI)
+	// the trees of the buffers of the open documents it lists (coherence of the snapshot)
+	bufs := []any{}
+	if perURI != nil {
+		for i, u := range r.uris {
+			if text, ok := r.srv.GetDocument(u); ok && u != uri {
+				p := strings.TrimPrefix(string(r.uris[i]), "file://")
+				if _, listed := perURI.Files[p]; listed {
+					bj, _ := parser.Parse(text)
+					bufs = append(bufs, []any{r.normPath(p), journalJ(bj)})
+				}
+			}
+		}
 	}
 	impl := make([]any, 0, len(qs))
 	for _, q := range qs {
@@ -251,7 +268,8 @@ func (r *hoverRun) line(req int, qs []any, gt any) map[string]any {
 	// HL/Props/C20Hover.lean); the driver evaluates it on every tree of this line, so a parser
 	// that stops guaranteeing it shows up as a correspondence break.
 	return map[string]any{"scen": r.scen, "gt": gt, "req": req, "qs": qs, "docj": journalJ(docj), "doct": doc,
-		"wsres": wsres, "res": res, "impl": J{"figs": impl, "wf": true}}
+		"wsres": wsres, "wsroot": wsroot, "dpath": dpath, "res": res, "bufs": bufs,
+		"impl": J{"figs": impl, "wf": true}}
 }
 
 // ---------------------------------------------------------------- markdown → figures
@@ -1112,7 +1130,7 @@ func hvScenario(c *Ctx) {
 	c.Count("mode." + mode)
 	c.Count(fmt.Sprintf("files.%d", nf))
 	adj := hvGraph(c, nf, allowIntoRoot)
-	if nf > 1 && r.IntN(10) == 0 { // an orphan: the last file is included by nobody
+	if nf > 1 && r.IntN(5) == 0 { // an orphan: the last file is included by nobody
 		for i := range adj {
 			kept := adj[i][:0]
 			for _, t := range adj[i] {
@@ -1121,6 +1139,18 @@ func hvScenario(c *Ctx) {
 				}
 			}
 			adj[i] = kept
+		}
+		if r.IntN(2) == 0 {
+			// a second top-level journal with an include of its own (a file of the root's tree,
+			// or the root itself where that does not change which file is the root)
+			lo := 0
+			if !allowIntoRoot {
+				lo = 1
+			}
+			if nf-1 > lo {
+				adj[nf-1] = append(adj[nf-1], lo+r.IntN(nf-1-lo))
+				c.Count("graph.orphan.includes")
+			}
 		}
 		if ws && !allowIntoRoot {
 			names[nf-1] = "z" + filepath.Base(names[nf-1])
